@@ -23,6 +23,7 @@ import ast
 from ..cfg import CFG
 from ..core import norm
 from ..facts import must_facts
+from .common import tokens_tested, operator_natives
 
 P = "C02"
 EXPLANATION = __doc__
@@ -55,23 +56,6 @@ CMP_CLASS = {"FuncLess": ast.Lt, "FuncLessEquals": ast.LtE, "FuncGreater": ast.G
 ARITH = ["FuncAdd", "FuncSub", "FuncMul", "FuncDiv", "FuncMod"]
 
 
-def tokens_tested(fn_node):
-    """Literal operator tokens a parser function tests with matchIf/peekn/peekOne or a relops list."""
-    out = set()
-    for n in ast.walk(fn_node):
-        if isinstance(n, ast.Call) and isinstance(n.func, ast.Attribute) and norm(n.func.value) == "lexer":
-            a = n.args
-            if n.func.attr == "matchIf" and a and isinstance(a[0], ast.Constant):
-                out.add(a[0].value)
-            elif n.func.attr == "peekn" and len(a) >= 2 and isinstance(a[1], ast.Constant):
-                out.add(a[1].value)
-            elif n.func.attr == "peekOne" and len(a) >= 2 and isinstance(a[1], ast.List):
-                out |= {x.value for x in a[1].elts if isinstance(x, ast.Constant)}
-        if isinstance(n, ast.Assign) and norm(n.targets[0]) == "relops" and isinstance(n.value, ast.List):
-            out |= {x.value for x in n.value.elts if isinstance(x, ast.Constant)}
-    return out
-
-
 def run(ctx):
     model = ctx.model
     parser = model.module(P, "parser")
@@ -96,7 +80,9 @@ def chain(ctx, model, parser):
                   f"{name} parses its operands with {sorted(callees)}, expected exactly {{{operand}}}: "
                   f"precedence or associativity of {sorted(toks)} changes", expr=f"{name} -> {sorted(callees)}",
                   site=f"{name}: operands parsed by {operand}")
-        tested = tokens_tested(f.node)
+        tested = tokens_tested(model, f)
+        if not tested:
+            ctx.broken(name, "no operator tokens could be extracted from this precedence level")
         ops = {t for t in tested if t in {"or", "and", "not", "==", "!=", "<>", "<", "<=", ">", ">=", "is",
                                           "+", "-", "*", "/", "%"}}
         ctx.check("C02.chain", f, None, ops == toks,
@@ -127,75 +113,15 @@ def chain(ctx, model, parser):
               site="parse_expression -> parse_or_expr")
 
 
-def _native_after_match(fn_node):
-    """{token: native}: for every path through the operator loop, the operator token consumed on that path
-    (matchIf(tok) taken, or match(tok)) and the native name handed to func_call on it (a literal, or a local
-    whose last assignment on the path is a literal)."""
-    out = {}
-    loops = [n for n in fn_node.body if isinstance(n, ast.While)]
-    if len(loops) != 1:
-        return out
-    frag = ast.FunctionDef(name="_it", args=ast.arguments(posonlyargs=[], args=[], kwonlyargs=[], kw_defaults=[],
-                                                          defaults=[], vararg=None, kwarg=None),
-                           body=loops[0].body, decorator_list=[], returns=None, type_comment=None,
-                           lineno=1, col_offset=0)
-    if hasattr(ast, "TypeVar"):
-        frag.type_params = []
-    try:
-        g = CFG(frag, implicit_exc=False)
-        paths = g.paths(max_paths=2000)
-    except OverflowError:
-        return out
-    for path in paths:
-        toks, consts, native = [], {}, None
-        for node, label in path:
-            a = node.ast
-            if a is None:
-                continue
-            if node.kind == "test":
-                if isinstance(a, ast.Call) and norm(a.func) == "lexer.matchIf" and a.args \
-                        and isinstance(a.args[0], ast.Constant) and label == "true":
-                    toks.append(a.args[0].value)
-                continue
-            for x in ast.walk(a):
-                if isinstance(x, ast.Call) and norm(x.func) == "lexer.match" and x.args \
-                        and isinstance(x.args[0], ast.Constant):
-                    toks.append(x.args[0].value)
-            if isinstance(a, ast.Assign) and isinstance(a.targets[0], ast.Name) and isinstance(a.value, ast.Constant):
-                consts[a.targets[0].id] = a.value.value
-            for x in ast.walk(a):
-                if isinstance(x, ast.Call) and norm(x.func) == "func_call" and x.args:
-                    f0 = x.args[0]
-                    if isinstance(f0, ast.Constant):
-                        native = f0.value
-                    elif isinstance(f0, ast.Name) and f0.id in consts:
-                        native = consts[f0.id]
-        if len(toks) == 1 and native is not None:
-            if toks[0] in out and out[toks[0]] != native:
-                out[toks[0]] = "<ambiguous>"
-            else:
-                out[toks[0]] = native
-    return out
-
-
 def table(ctx, model, parser):
     got = {}
-    for name in ("parse_add_expr", "parse_mul_expr"):
-        got.update(_native_after_match(model.func(P, "parser", name).node))
     rel = model.func(P, "parser", "parse_rel_expr")
-    for n in ast.walk(rel.node):
-        if isinstance(n, ast.If) and isinstance(n.test, ast.Compare) and norm(n.test.left) == "relop":
-            t = n.test
-            ops = []
-            if isinstance(t.ops[0], ast.Eq) and isinstance(t.comparators[0], ast.Constant):
-                ops = [t.comparators[0].value]
-            elif isinstance(t.ops[0], ast.In) and isinstance(t.comparators[0], ast.List):
-                ops = [x.value for x in t.comparators[0].elts]
-            for st in n.body:
-                for c in ast.walk(st):
-                    if isinstance(c, ast.Call) and norm(c.func) == "func_call" and isinstance(c.args[0], ast.Constant):
-                        for o in ops:
-                            got[o] = c.args[0].value
+    for name in ("parse_add_expr", "parse_mul_expr", "parse_rel_expr"):
+        t = operator_natives(model, model.func(P, "parser", name))
+        if not t:
+            ctx.broken(name, "the operator loop of this precedence level is not understood (no token -> native "
+                             "pair could be extracted)")
+        got.update(t)
     for tok, nat in sorted(NATIVE.items()):
         ctx.check("C02.table", rel if tok in ("<", "is") else "parser", None, got.get(tok) == nat,
                   f"operator {tok!r} is parsed to native {got.get(tok)!r}, expected {nat!r}",
@@ -229,13 +155,11 @@ def table(ctx, model, parser):
     ctx.check("C02.table", prim, None, ok, "negative literal folding changed", expr="literal folding",
               site="parse_primary_expr: -<literal> folds the sign into the literal")
     # native registration names match classes
+    from .common import native_registry
     bn = model.func(P, "functions", "bind_native")
-    reg = {}
-    for n in ast.walk(bn.node):
-        if isinstance(n, ast.If) and isinstance(n.test, ast.Compare) and isinstance(n.test.comparators[0], ast.Constant):
-            for c in ast.walk(n.body[0]):
-                if isinstance(c, ast.Call) and isinstance(c.func, ast.Name) and c.func.id.startswith("Func"):
-                    reg[n.test.comparators[0].value] = c.func.id
+    reg = native_registry(model, P)
+    if len(reg) < 60:
+        ctx.broken("bind_native", f"only {len(reg)} native registrations could be extracted")
     want = {"add": "FuncAdd", "sub": "FuncSub", "mul": "FuncMul", "div": "FuncDiv", "mod": "FuncMod",
             "less": "FuncLess", "less_equals": "FuncLessEquals", "greater": "FuncGreater",
             "greater_equals": "FuncGreaterEquals", "equals": "FuncEquals", "not_equals": "FuncNotEquals"}
@@ -358,7 +282,7 @@ def arithmetic(ctx, model):
             if _has(have, *INT2):
                 n_int += 1
                 _exact(ctx, m, cname, val)
-                ok = (isinstance(val, ast.Call) and norm(val.func) == "ValueInt") or "environment.get('DIV_0_VALUE'" in norm(val)
+                ok = _returns_kind(ctx, model, m, val, "ValueInt")
                 ctx.check("C02.kind", m, val, ok, f"{cname}: int o int does not return ValueInt(...)",
                           site=f"{cname}.execute: int o int -> ValueInt")
                 ctx.check("C02.null", m, val, _has(have, *NONNULL),
@@ -366,7 +290,7 @@ def arithmetic(ctx, model):
                           site=f"{cname}.execute: int branch after the NULL test")
             elif _has(have, *NUM2):
                 n_num += 1
-                ok = (isinstance(val, ast.Call) and norm(val.func) == "ValueDecimal") or "environment.get('DIV_0_VALUE'" in norm(val)
+                ok = _returns_kind(ctx, model, m, val, "ValueDecimal")
                 ctx.check("C02.kind", m, val, ok,
                           f"{cname}: a numeric pair that is not int/int does not return ValueDecimal(...) - the "
                           f"result kind must follow the operand kinds, not the host type of the payload",
@@ -389,6 +313,32 @@ def arithmetic(ctx, model):
                 ok = len(n.body) == 1 and norm(n.body[0]) == "return NULL"
         ctx.check("C02.null", m, None, ok, f"{cname}: `if a.isNull() or b.isNull(): return NULL` not found",
                   expr="NULL test", site=f"{cname}.execute: NULL operand -> NULL")
+
+
+def _returns_kind(ctx, model, m, val, ctor, depth=0):
+    """Is the returned expression a `ctor(..)` value (or the program-defined DIV_0_VALUE override)?  Locals with one
+    assignment and statically named helpers are followed; what cannot be told stops the analysis."""
+    from .common import resolve_static_call
+    if "environment.get('DIV_0_VALUE'" in norm(val):
+        return True
+    if isinstance(val, ast.Call) and isinstance(val.func, ast.Name) and val.func.id.startswith("Value"):
+        return val.func.id == ctor
+    if isinstance(val, ast.Name):
+        defs = [a.value for a in ast.walk(m.node) if isinstance(a, ast.Assign) and len(a.targets) == 1
+                and norm(a.targets[0]) == val.id]
+        if len(defs) == 1 and depth < 3:
+            return _returns_kind(ctx, model, m, defs[0], ctor, depth + 1)
+    if isinstance(val, ast.Call) and depth < 3:
+        callee = resolve_static_call(model, m, val)
+        if callee is not None:
+            rets = [r for r in ast.walk(callee.node) if isinstance(r, ast.Return) and r.value is not None]
+            if rets:
+                return all(_returns_kind(ctx, model, callee, r.value, ctor, depth + 1) for r in rets)
+            if any(isinstance(r, ast.Raise) for r in ast.walk(callee.node)):
+                return True        # the helper only raises
+    if isinstance(val, ast.IfExp):
+        return _returns_kind(ctx, model, m, val.body, ctor, depth) and _returns_kind(ctx, model, m, val.orelse, ctor, depth)
+    ctx.broken(m.qual, f"the kind of the returned expression `{norm(val)[:60]}` cannot be told")
 
 
 def _exact(ctx, m, cname, node):
@@ -421,33 +371,74 @@ def negtwin(ctx, model):
     if not (isinstance(first, ast.If) and norm(first.test) == "lexer.matchIf('not', 'keyword')"):
         ctx.broken("parse_pred_expr", "negated chain not found")
 
-    def chain_of(ifnode):
+    tables = {}
+    for name, v in f.module.globals_assigned.items():
+        if isinstance(v, (ast.List, ast.Tuple)) and v.elts and all(
+                isinstance(e, (ast.Tuple, ast.List)) and all(isinstance(x, ast.Constant) for x in e.elts)
+                or isinstance(e, ast.Constant) for e in v.elts):
+            tables[name] = v.elts
+
+    class Subst(ast.NodeTransformer):
+        def __init__(self, env):
+            self.env = env
+
+        def visit_Name(self, n):
+            return ast.Constant(value=self.env[n.id]) if n.id in self.env else n
+
+    def forms(stmts):
+        """(test text, returned expression, node) for every `if <token test>: return <expr>` alternative of a
+        statement list: elif chains, consecutive ifs, and loops over a module-level table (expanded per row)."""
+        import copy
         out = []
-        node = ifnode
-        while True:
-            ret = [s for s in node.body if isinstance(s, ast.Return)]
-            out.append((norm(node.test).replace("matchIf('in')", "matchIf('in', 'keyword')"),
-                        ret[0].value if ret else None, node))
-            if len(node.orelse) == 1 and isinstance(node.orelse[0], ast.If):
-                node = node.orelse[0]
-            else:
-                break
+        for st in stmts:
+            if isinstance(st, ast.If):
+                node = st
+                while True:
+                    ret = [x for x in node.body if isinstance(x, ast.Return)]
+                    out.append((norm(node.test).replace("matchIf('in')", "matchIf('in', 'keyword')"),
+                                ret[0].value if ret else None, node))
+                    if len(node.orelse) == 1 and isinstance(node.orelse[0], ast.If):
+                        node = node.orelse[0]
+                    else:
+                        out += forms(node.orelse)
+                        break
+            elif isinstance(st, ast.For) and isinstance(st.iter, ast.Name) and st.iter.id in tables:
+                for row in tables[st.iter.id]:
+                    if isinstance(st.target, ast.Name):
+                        env = {st.target.id: row.value} if isinstance(row, ast.Constant) else None
+                    else:
+                        names = [x.id for x in st.target.elts if isinstance(x, ast.Name)]
+                        env = dict(zip(names, [x.value for x in row.elts])) if not isinstance(row, ast.Constant) else None
+                    if env is None:
+                        ctx.broken("parse_pred_expr", f"loop over {st.iter.id} not understood")
+                    body = [ast.fix_missing_locations(Subst(env).visit(copy.deepcopy(x))) for x in st.body]
+                    for t, v, node in forms(body):
+                        out.append((t, v, st))
         return out
 
-    neg = chain_of(first.body[0])
-    pos = chain_of(first.orelse[0]) if first.orelse and isinstance(first.orelse[0], ast.If) else []
+    neg = forms(first.body)
+    pos = forms(first.orelse) + forms(top.body[1:])
     if len(neg) < 20 or len(pos) < 20:
         ctx.broken("parse_pred_expr", f"predicate chains too short ({len(neg)}, {len(pos)})")
-    ctx.check("C02.negtwin", f, None, len(neg) == len(pos),
-              f"negated chain has {len(neg)} forms, positive chain {len(pos)}", expr="chain lengths",
-              site="is / is not chains have the same number of forms")
-    for i, ((tn, vn, nn), (tp, vp, np_)) in enumerate(zip(neg, pos)):
-        same_tok = tn == tp
-        ok = same_tok and isinstance(vn, ast.Call) and norm(vn.func) == "NodeNot" and len(vn.args) == 2 \
+    posd = {}
+    for t, v, n in pos:
+        posd.setdefault(t, (v, n))          # the first alternative with a given test wins at run time
+    negd = {}
+    for t, v, n in neg:
+        negd.setdefault(t, (v, n))
+    ctx.check("C02.negtwin", f, None, set(negd) == set(posd),
+              f"the `is not` and `is` chains do not test the same forms: only negated "
+              f"{sorted(set(negd) - set(posd))[:3]}, only positive {sorted(set(posd) - set(negd))[:3]}",
+              expr="chain lengths", site="is / is not chains test the same forms")
+    for i, (tn, (vn, nn)) in enumerate(negd.items()):
+        if tn not in posd:
+            continue
+        vp = posd[tn][0]
+        ok = isinstance(vn, ast.Call) and norm(vn.func) == "NodeNot" and len(vn.args) == 2 \
             and vp is not None and norm(vn.args[0]) == norm(vp)
-        ctx.check("C02.negtwin", f, nn.test, ok,
-                  f"`is not` form #{i} ({tn[:60]}) is not NodeNot of the `is` form #{i} ({tp[:60]})",
-                  site=f"form #{i}: {tp[14:60]}")
+        ctx.check("C02.negtwin", f, nn if isinstance(nn, ast.For) else nn.test, ok,
+                  f"`is not` form ({tn[:60]}) is not NodeNot of the `is` form with the same test",
+                  expr=f"negtwin {tn[:70]}", site=f"form: {tn[14:60]}")
     # kind names
     kinds = set()
     for c in model.subclasses("Value"):
